@@ -14,6 +14,7 @@ fn level_of(id: &str) -> &'static str {
 
 fn main() {
     let args: Vec<String> = std::env::args().collect();
+    if args.len() >= 2 && args[1] == "--gen-corpus" { gen_corpus(); return; }
     if args.len() < 3 { usage(); }
     let id: &'static str = Box::leak(args[1].clone().into_boxed_str());
     panics::install();
@@ -26,6 +27,11 @@ fn main() {
     }
     if args[2] == "--replay" {
         let path = args.get(3).unwrap_or_else(|| usage());
+        if path.ends_with(".bin") || !path.ends_with(".json") {
+            // a libFuzzer crash artifact
+            let target = if id == "C05" { "wire" } else { "decoders" };
+            std::process::exit(vh::fuzzrun::replay_artifact(id, target, path));
+        }
         let txt = std::fs::read_to_string(path).unwrap_or_else(|e| { eprintln!("cannot read {path}: {e}"); std::process::exit(2) });
         let v: serde_json::Value = serde_json::from_str(&txt).unwrap_or_else(|e| { eprintln!("bad replay file: {e}"); std::process::exit(2) });
         let leg = v["leg"].as_str().unwrap_or("").to_string();
@@ -121,4 +127,30 @@ fn regressions(id: &'static str) -> (Vec<String>, usize) {
         if rc == 1 { fails += 1; }
     }
     (names, fails)
+}
+
+/// writes a few small valid inputs per fuzz target into /verif/corpus/<target>/
+fn gen_corpus() {
+    use vh::pure::c06;
+    let base = std::path::Path::new(vh::core::VERIF_DIR).join("corpus");
+    let w = base.join("wire");
+    let d = base.join("decoders");
+    let _ = std::fs::create_dir_all(&w);
+    let _ = std::fs::create_dir_all(&d);
+    for i in 0..12u16 {
+        let mut v = vec![(i % 4) as u8, 3, 7, 1];
+        v.truncate(1 + (i % 4) as usize);
+        v.extend(c06::valid_encoding(c06::T_FRAMES, i, i * 37 + 5, i as u8));
+        std::fs::write(w.join(format!("frames-{i}")), v).unwrap();
+    }
+    // fuzz target numbering: 0 frames 1 batch 2 string 3 bytes 4 record 5 vec<string> 6 map 7 gzip 8 zlib 9 zstd 10 lz4 11 sub-plain 12 sub-lz4-bincode 13 sub-gzip..
+    let map: [(u8, u8); 13] = [(0, c06::T_FRAMES), (1, c06::T_BATCH), (2, c06::T_STRING), (3, c06::T_BYTES), (4, c06::T_BINCODE_RECORD), (5, c06::T_BINCODE_STRINGS), (6, c06::T_BINCODE_MAP), (7, c06::T_GZIP), (8, c06::T_ZLIB), (9, c06::T_ZSTD), (10, c06::T_LZ4), (11, c06::T_SUB_PLAIN), (12, c06::T_SUB_LZ4_BINCODE)];
+    for (ft, t) in map {
+        for i in 0..3u16 {
+            let mut v = vec![ft];
+            v.extend(c06::valid_encoding(t, i * 11 + 1, i * 5 + 2, (i + 2) as u8));
+            std::fs::write(d.join(format!("t{ft}-{i}")), v).unwrap();
+        }
+    }
+    println!("corpus written under {}", base.display());
 }
